@@ -61,6 +61,17 @@ def run_stream(ctx, binp, test, label, env, timeout):
     return rc, out, outdir
 
 
+def run_stream_retry(ctx, binp, test, label, env, timeout):
+    """like run_stream; a run in which the HARNESS could not query the real nsqlookupd (line E6-INCONCLUSIVE: loaded box,
+    no free port) says nothing about nsqd: it is repeated once in a fresh process, the first outcome goes to the notes"""
+    rc, out, od = run_stream(ctx, binp, test, label, env, timeout)
+    inc = [l for l in out.splitlines() if l.startswith("E6-INCONCLUSIVE")]
+    if inc:
+        ctx.notes.append("leg %s repeated once: %s" % (label, inc[0][:300]))
+        rc, out, od = run_stream(ctx, binp, test, label, env, timeout)
+    return rc, out, od
+
+
 def diff_stream(ctx, outdir, name, label):
     p = os.path.join(outdir, name + ".ops")
     if not os.path.exists(p):
@@ -283,14 +294,14 @@ def run(ctx):
         scripts = sorted(glob.glob(os.path.join(ROOT, "corpus", "C16", "*.ops")) + glob.glob(os.path.join(ROOT, "corpus", "C16", "known", "*.ops")) +
                          glob.glob(os.path.join(ROOT, "corpus", "C16", "fixed", "*.ops")))
         if scripts:
-            rc, out, od = run_stream(ctx, binp, "TestVerifE6Sync", "known", {"VERIF_SCRIPT": ",".join(scripts)}, 300)
+            rc, out, od = run_stream_retry(ctx, binp, "TestVerifE6Sync", "known", {"VERIF_SCRIPT": ",".join(scripts)}, 300)
             oracle_lines(ctx, out, "known")
             res = diff_stream(ctx, od, "sync", "known")
             if res:
                 judge_sync(ctx, res, "known", corr_broken)
         # (d) generated fault/churn scripts
-        rc, out, od = run_stream(ctx, binp, "TestVerifE6Sync", "sync", {"VERIF_N": ctx.budget(5, 60)},
-                                 ctx.budget(400, 3000))
+        rc, out, od = run_stream_retry(ctx, binp, "TestVerifE6Sync", "sync", {"VERIF_N": ctx.budget(5, 60)},
+                                       ctx.budget(400, 3000))
         oracle_lines(ctx, out, "sync")
         res = diff_stream(ctx, od, "sync", "sync")
         if rc != 0 or not res:
